@@ -34,6 +34,8 @@ VOCAB = [
     ("torch.serialization", "load", "nonstd"), ("torch.jit", "load", "nonstd"), ("operator.impl", "getitem", "nonstd"),
     ("time", "time", "benign_std"), ("itertools", "count", "benign_std"), ("marshal", "loads", "benign_std"),
     ("_io", "BytesIO", "benign_std"), ("numpy.testing._private.utils.x", "runstring", "nonstd"),
+    ("commands", "getoutput", "nonstd"), ("UserDict", "UserDict", "nonstd"), ("cPickle", "loads", "nonstd"),
+    ("urllib2", "urlopen", "nonstd"), ("Queue", "Queue", "nonstd"), ("__builtin__", "getattr", "builtins"),
 ]
 SECOND = [("collections", "OrderedDict"), ("verif_sink", "other"), ("builtins", "getattr"), ("os", "getpid"),
           ("collections", "deque"), ("datetime", "date")]
@@ -46,11 +48,12 @@ REGRESSION = [      # inputs of test/test_crashes.py (issues 22, numpy poly1d, P
 SHADOWMODS = ["collections", "importlib", "gzip", "datetime", "functools", "string"]
 
 
-def generate(ctx, profile, maxlen, *, simulate=None, depth=None, minstop=0, maxdepth=8, require=(), reqmods=()):
+def generate(ctx, profile, maxlen, *, simulate=None, depth=None, minstop=0, maxdepth=8, require=(), reqmods=(), emptybatch=False):
     def tlaset(xs):
         return "{" + ", ".join('"%s"' % x for x in xs) + "}"
     cfg = (GEN_CFG.replace("@MAXLEN@", str(maxlen)).replace("@MINSTOP@", str(minstop)).replace("@MAXDEPTH@", str(maxdepth))
-           .replace("@REQUIRE@", tlaset(require)).replace("@REQMODS@", tlaset(reqmods)))
+           .replace("@REQUIRE@", tlaset(require)).replace("@REQMODS@", tlaset(reqmods))
+           .replace("@REQEMPTY@", "TRUE" if emptybatch else "FALSE"))
     if simulate:   # walks: keep the cheap invariants only (all successors of every visited state are checked)
         for ln in ("PROPERTY Monotone\n", "INVARIANT Replayable\n", "INVARIANT HeapClosed\n", "INVARIANT ResultCanonical\n"):
             cfg = cfg.replace(ln, "")
@@ -74,7 +77,7 @@ def generate(ctx, profile, maxlen, *, simulate=None, depth=None, minstop=0, maxd
 def rejected_programs(ctx, maxlen):
     """programs whose last opcode the specification rejects as a machine error (for the oracle binding)"""
     cfg = (GEN_CFG.replace("@MAXLEN@", str(maxlen)).replace("@MINSTOP@", "0").replace("@MAXDEPTH@", "8")
-           .replace("@REQUIRE@", "{}").replace("@REQMODS@", "{}").replace("INVARIANT Emit\n", "INVARIANT EmitErr\n"))
+           .replace("@REQUIRE@", "{}").replace("@REQMODS@", "{}").replace("@REQEMPTY@", "FALSE").replace("INVARIANT Emit\n", "INVARIANT EmitErr\n"))
     for ln in ("PROPERTY Monotone\n", "INVARIANT Replayable\n", "INVARIANT ResultCanonical\n"):
         cfg = cfg.replace(ln, "")
     r = tlc.run("MC_mixed", cfg, workers=8, timeout=1800, heap="8g")
@@ -194,6 +197,7 @@ PLANS = {
                         dict(profile="memoglobal", maxlen=8, maxdepth=4, require=("STACK_GLOBAL", "MEMOIZE", "PUT", "GET")),
                         dict(profile="memoslots", maxlen=7, maxdepth=4, require=("MEMOIZE", "PUT", "GET")),
                         dict(profile="shadow", maxlen=6, maxdepth=5, shadow=True),
+                        dict(profile="emptybatch", maxlen=7, maxdepth=5, emptybatch=True),
                         dict(profile="mixed", maxlen=14, simulate=120, depth=14, minstop=7, maxdepth=6)],
                   per_shape=1, natural=400),
     "thorough": dict(plan=[dict(profile="calls", maxlen=6), dict(profile="data", maxlen=6),
@@ -201,6 +205,7 @@ PLANS = {
                            dict(profile="memoglobal", maxlen=9, maxdepth=4, require=("STACK_GLOBAL", "MEMOIZE", "PUT", "GET")),
                            dict(profile="memoslots", maxlen=8, maxdepth=4, require=("MEMOIZE", "PUT", "GET")),
                            dict(profile="shadow", maxlen=7, maxdepth=5, shadow=True),
+                           dict(profile="emptybatch", maxlen=8, maxdepth=5, emptybatch=True),
                            dict(profile="mixed", maxlen=30, simulate=6000, depth=30, minstop=10, maxdepth=8)],
                      per_shape=2, natural=6000),
 }
@@ -301,6 +306,10 @@ def features(rec):
         byname.setdefault(n, set()).add(m)
     if any(len(ms) > 1 for ms in byname.values()):
         f.add("F:same-name-different-module")
+    if rec["ref"].get("stale"):
+        # a global is used (called, passed, stored, returned) after a same-named global of another module was resolved:
+        # the bare name the decompiler prints no longer denotes it
+        f.add("F:stale-global-use")
     names = [o["o"] for o in rec["prog"]]
     callers = {"REDUCE", "OBJ", "INST", "NEWOBJ", "NEWOBJ_EX", "BINPERSID", "PERSID", "BUILD"}
     mutators = {"APPEND", "APPENDS", "SETITEM", "SETITEMS", "ADDITEMS"}
